@@ -108,7 +108,16 @@ def check(ck):
     for jn in joins:
         ck.require("__lock" not in cl.held(fs, jn), "C11.3", "%s: `%s` outside the pool lock" % (q.fn(fs), q.stmt_text(jn)), "joined without the lock",
                    "worker threads are joined while holding the pool lock: a worker that needs the lock to finish can never be joined", q.loc(fs, jn))
-    ck.require(all(any(j.id in ds[x.id] for j in joins) or True for x in clears) and clears[0].lineno > joins[0].lineno and drain[0].lineno > joins[0].lineno,
+    from vlib.flow import reachable_avoiding
+    after = True
+    for x in (clears[0], drain[0]):
+        fwd = reachable_avoiding(gs, x.id, set(), lambda l: l != "exc")
+        back = set()
+        for j in joins:
+            back |= reachable_avoiding(gs, j.id, set(), lambda l: l != "exc")
+        # the clearing step follows the joins: reachable from them, and no way back from it to a join
+        after = after and x.id in back and not any(j.id in fwd for j in joins)
+    ck.require(after,
                "C11.3", "%s: storage cleared after the joins" % q.fn(fs), "ordered", "the thread list / queue is cleared before the workers have been joined", q.loc(fs, clears[0]))
     fst = prog.func(TP, "ThreadPool.start")
     gst = cfg_of(fst)
